@@ -118,7 +118,61 @@ def own_scope(fnode):
         stack.extend(ast.iter_child_nodes(n))
 
 
-def expand(fnode, expr, max_depth=8):
+MODEL = None  # set by the runner: lets expand() look through calls of one-expression helpers of the repository
+
+
+def set_model(model):
+    global MODEL
+    MODEL = model
+    model._func_of_node = {id(f.node): f for f in model.all_funcs()}
+
+
+def _inline_helper_call(call, func, depth):
+    """`self._h(a, b)` / `h(a, b)` where h is a repository function whose (normalised) body is a single `return E`:
+    E with the parameters replaced by the arguments; None when that does not apply."""
+    if MODEL is None or func is None or depth > 3:
+        return None
+    try:
+        g = MODEL.resolve_call(call, func)
+    except Exception:
+        return None
+    if g is None or not hasattr(g, "node") or not isinstance(g.node, (ast.FunctionDef,)) or g.node is func.node or g.node.decorator_list:
+        return None
+    body = [s_ for s_ in g.node.body if not (isinstance(s_, ast.Expr) and isinstance(s_.value, ast.Constant))]
+    if len(body) != 1 or not isinstance(body[0], ast.Return) or body[0].value is None:
+        return None
+    a = g.node.args
+    if a.vararg or a.kwarg or a.kwonlyargs or a.posonlyargs or any(isinstance(x, ast.Starred) for x in call.args) or any(k.arg is None for k in call.keywords):
+        return None
+    params = [x.arg for x in a.args]
+    is_method = getattr(g, "cls", None) is not None and params and params[0] in ("self", "cls")
+    if is_method:
+        params = params[1:]
+    if len(call.args) > len(params):
+        return None
+    bind = dict(zip(params, call.args))
+    for k in call.keywords:
+        if k.arg not in params or k.arg in bind:
+            return None
+        bind[k.arg] = k.value
+    defaults = dict(zip(reversed(params), reversed(a.defaults)))
+    for p_ in params:
+        if p_ not in bind:
+            if p_ not in defaults:
+                return None
+            bind[p_] = defaults[p_]
+    # no capture problems: the helper body may only mention its parameters, self and globals
+    locals_ = {x.id for x in ast.walk(body[0].value) if isinstance(x, ast.Name) and isinstance(x.ctx, ast.Store)}
+
+    class Sub(ast.NodeTransformer):
+        def visit_Name(self, n):
+            if isinstance(n.ctx, ast.Load) and n.id in bind and n.id not in locals_:
+                return clone(bind[n.id])
+            return n
+    return Sub().visit(clone(body[0].value)), g
+
+
+def expand(fnode, expr, max_depth=8, helpers=False):
     """Copy of `expr` in which every local that the function binds exactly once (plain `name = value`, not a parameter,
     not inside a loop that could rebind it differently per iteration relative to the use) is replaced by its value,
     recursively.  Gives one representative for code that differs only in which sub-expressions are named."""
@@ -144,6 +198,8 @@ def expand(fnode, expr, max_depth=8):
             if stores.get(t) == 1 and t not in params:
                 single[t] = n.value
 
+    func = getattr(MODEL, "_func_of_node", {}).get(id(fnode)) if MODEL is not None else None
+
     class Sub(ast.NodeTransformer):
         def __init__(self, depth, seen):
             self.depth, self.seen = depth, seen
@@ -151,6 +207,13 @@ def expand(fnode, expr, max_depth=8):
         def visit_Name(self, n):
             if isinstance(n.ctx, ast.Load) and n.id in single and n.id not in self.seen and self.depth < max_depth:
                 return Sub(self.depth + 1, self.seen | {n.id}).visit(clone(single[n.id]))
+            return n
+
+        def visit_Call(self, n):
+            self.generic_visit(n)
+            r = _inline_helper_call(n, func, self.depth) if helpers else None
+            if r is not None:
+                return r[0]
             return n
 
     return Sub(0, frozenset()).visit(clone(expr))
